@@ -335,13 +335,14 @@ impl Status {
 
         let duration = if let Some(val) = raw.get("duration") {
             Some(Duration::from_value(val, "duration")?)
-        } else if let Some(time) = raw.get("Time") {
-            // Backwards compatibility with protocol versions <0.20
+        } else if let Some(time) = raw.get("time") {
+            // Backwards compatibility with protocol versions <0.20. Unlike the `Time` field of
+            // songs, the status field is lowercase and has the form `elapsed:total`
             if let Some((_, duration)) = time.split_once(':') {
-                Some(Duration::from_value(duration.to_owned(), "Time")?)
+                Some(Duration::from_value(duration.to_owned(), "time")?)
             } else {
                 // No separator
-                return Err(TypedResponseError::invalid_value("Time", time));
+                return Err(TypedResponseError::invalid_value("time", time));
             }
         } else {
             None
